@@ -685,8 +685,15 @@ func (e *chainEngine) doOp(n *cnode, op chainOp) *cnode {
 	if failFast && len(failed) > 0 {
 		// which of the independent targets got to run before the build stopped is a matter of timing: the model follows
 		// what was observed (a target that did not run has neither a new cache entry nor a new failure)
+		ended := map[string]bool{}
+		for _, l := range rr.Trace {
+			if strings.HasPrefix(l, "end //p:") {
+				ended[strings.TrimPrefix(l, "end //p:")] = true
+			}
+		}
 		for _, t := range chainTargets {
-			if pred[t] == "run" && !executed[t] {
+			// a command that was started but cancelled before it finished has not produced a result either
+			if pred[t] == "run" && (!executed[t] || (!ended[t] && !contains(failed, t))) {
 				if k := model.lastKeys[t]; k != "" && n.model.Cache[k] == "" {
 					delete(model.Cache, k)
 				} else if k != "" {
